@@ -1,0 +1,30 @@
+//go:build verif
+// +build verif
+
+package rawmessagesfilter
+
+import (
+	"fmt"
+	"github.com/orbs-network/lean-helix-go/spec/types/go/primitives"
+	"sort"
+)
+
+// VerifDump renders the future cache (heights, message counts) and the cache watermark (read-only).
+func (f *RawMessageFilter) VerifDump() string {
+	hs := make([]uint64, 0, len(f.futureCache))
+	for h := range f.futureCache {
+		hs = append(hs, uint64(h))
+	}
+	sort.Slice(hs, func(i, j int) bool { return hs[i] < hs[j] })
+	s := fmt.Sprintf("lf=%d", uint64(f.latestFutureBlockHeight))
+	for _, h := range hs {
+		s += fmt.Sprintf(" %d:[", h)
+		for _, m := range f.futureCache[primitives.BlockHeight(h)] {
+			s += fmt.Sprintf("%x;", m.Raw())
+		}
+		s += "]"
+	}
+	return s
+}
+
+func (f *RawMessageFilter) VerifHasHandler() bool { return f.consensusMessagesHandler != nil }
